@@ -29,8 +29,28 @@ def _shape(v, d=0):
     if isinstance(v, (list, tuple)):
         return ("l", tuple(_shape(x, d + 1) for x in v))
     if isinstance(v, W):
-        return "w:" + type(v.ex[0]).__name__
+        f = v.ex[0]
+        return "w:" + type(f).__name__ + (":" + f[0] if isinstance(f, str) and f and not f[0].isalnum() else "")
     return type(v).__name__ + (":" + str(v) if isinstance(v, bool) or v is None else "")
+
+
+def _norm(x):
+    return x.lower().replace('"', "").replace("`", "").replace("[", "").replace("]", "") if isinstance(x, str) else x
+
+
+def _name_relations(t):
+    """which pairs of column names are different as written but equal once quoting and case are ignored (part of the shape:
+    such tables exercise every name comparison of the output layer)"""
+    names = [c.get("name") for c in t.get("columns") or [] if isinstance(c, dict)]
+    out = []
+    for i in range(len(names)):
+        for j in range(i + 1, len(names)):
+            a, b = names[i], names[j]
+            ea = a.ex if isinstance(a, W) else (a,) * 6
+            eb = b.ex if isinstance(b, W) else (b,) * 6
+            if all(x != y for x, y in zip(ea, eb)) and all(_norm(x) == _norm(y) for x, y in zip(ea, eb)):
+                out.append((i, j))
+    return tuple(out)
 
 
 class FinalJudge:
@@ -55,7 +75,7 @@ class FinalJudge:
         r = self.inner(ex, red)
         self.inner_checked = getattr(self.inner, "checked", 0)
         if red.lhs == "expr" and isinstance(red.new, dict) and "table_name" in red.new and "columns" in red.new and red.new.get("columns"):
-            k = _shape(red.new)
+            k = (_shape(red.new), _name_relations(red.new))
             if k not in self.seen and len(self.seen) < 4000:
                 self.seen[k] = (copy.deepcopy(red.new), ex.render(ex._cur_ctx))
         return r
@@ -181,6 +201,11 @@ class FinalJudge:
             for p in exp_pk:
                 if deep_eq_safe(c["name"], p) and c.get("nullable") is not False:
                     return bad("a primary-key column is reported nullable", f"{show(c)!r}"[:300])
+        for c_parse, c_out in zip(cols, t["columns"]):
+            is_key = any(deep_eq_safe(c_out["name"], p) for p in exp_pk)
+            if not is_key and isinstance(c_parse.get("nullable"), bool) and c_out.get("nullable") != c_parse.get("nullable"):
+                return bad("nullability of a column that is not part of the key changed",
+                           f"column {show(c_out['name'])!r}: declared nullable={c_parse.get('nullable')}, reported {c_out.get('nullable')}; key = {show(exp_pk)!r}")
         # unique flags
         single = []
         us = F.get("unique_statement")
